@@ -41,7 +41,13 @@ def corpus():
     reqs = [q('GET', '/api/x'), q('GET', '/other'), q('GET', '/apix'), q('GET', '/api/y'), q('POST', '/api/x'), q('GET', '/api'), q('DELETE', '/nowhere')]
     B = {'fangs': [1, 2, 3], 'items': [R('/a', 10, local=(7, 8)), {'mount': '/m/:t', 'app': {'fangs': [4, 5], 'items': [R('/', 11), {'mount': '/n', 'app': {'fangs': [6], 'items': [R('/z', 12, local=(9,))]}}]}}]}
     reqsB = [q('GET', '/a'), q('GET', '/m/q'), q('GET', '/m/q/n/z'), q('GET', '/m/q/n/zz'), q('GET', '/m/q/n'), q('GET', '/m'), q('HEAD', '/m/q/n/z')]
-    return [{'case': {'app': A, 'stop': None, 'reqs': reqs}},          # was: order C,P and C leaking onto /other and /apix
+    arity = []
+    for k in range(1, 9):          # every arity of the fang tuple, through both constructors, with an early answer in the middle
+        for via in (False, True):
+            app = {'fangs': list(range(1, k + 1)), 'via_new': via, 'items': [R('/x', 10, local=(20, 21, 22)), {'mount': '/m', 'app': {'fangs': list(range(11, 11 + k)), 'via_new': via, 'items': [R('/y', 12)]}}]}
+            rq = [q('GET', '/x'), q('GET', '/m/y'), q('GET', '/m/zz'), q('POST', '/nowhere')]
+            arity += [{'case': {'app': app, 'stop': None, 'reqs': rq}}, {'case': {'app': app, 'stop': (k + 1) // 2, 'reqs': rq}}, {'case': {'app': app, 'stop': 11 + k // 2, 'reqs': rq}}, {'case': {'app': app, 'stop': 21, 'reqs': rq}}]
+    return arity + [{'case': {'app': A, 'stop': None, 'reqs': reqs}},          # was: order C,P and C leaking onto /other and /apix
             {'case': {'app': A, 'stop': 2, 'reqs': reqs}}, {'case': {'app': A, 'stop': 1, 'reqs': reqs}},
             {'case': {'app': B, 'stop': None, 'reqs': reqsB}}, {'case': {'app': B, 'stop': 5, 'reqs': reqsB}}, {'case': {'app': B, 'stop': 8, 'reqs': reqsB}}]
 
